@@ -3,6 +3,7 @@ package main
 // Symbolic execution of go/ssa function bodies (path enumeration, loops cut at invariants).
 
 import (
+	"sync"
 	"os"
 	"fmt"
 	"go/constant"
@@ -152,7 +153,8 @@ func (x *Exec) posStr(p token.Pos) string {
 	}
 	pp := x.e.prog.Fset.Position(p)
 	f := pp.Filename
-	if i := strings.Index(f, "/repo/"); i >= 0 {
+	if i := strings.Index(f, repoRoot+"/"); i >= 0 {
+		i += len(repoRoot) - len("/repo")
 		f = f[i+6:]
 	}
 	return fmt.Sprintf("%s:%d", f, pp.Line)
@@ -740,6 +742,12 @@ func (x *Exec) globalAddr(st *State, g *ssa.Global) Val {
 	var inner Val
 	if h, ok := globalModels[g.String()]; ok {
 		inner = h(x, st)
+	} else if n, ok := constIntGlobal(g); ok {
+		// package-level sdk.Int initialised with sdk.NewInt(<constant>) and never assigned again
+		inner = IntLit(n)
+	} else if lit, ok := constByteGlobal(g); ok {
+		// package-level []byte initialised with a literal and never assigned again (key prefixes)
+		inner = T{S: smtStrLit(lit), So: SString, Segs: []Seg{{Kind: "const", Lit: lit, S: smtStrLit(lit)}}}
 	} else if isErrorType(elem) {
 		inner = &ErrV{IsNil: TFalse}
 	} else {
@@ -873,4 +881,218 @@ func (x *Exec) mapUpdate(st *State, fr *Frame, v *ssa.MapUpdate) {
 	if st.Written != nil {
 		st.Written[mv.Obj] = true
 	}
+}
+
+var constByteGlobals sync.Map
+
+// constByteGlobal: g is a package-level []byte whose only assignment is `g = []byte{c0, c1, ...}` in the package
+// initialiser. Returns the bytes.
+func constByteGlobal(g *ssa.Global) ([]byte, bool) {
+	if v, ok := constByteGlobals.Load(g); ok {
+		b, _ := v.([]byte)
+		return b, b != nil
+	}
+	res := func() []byte {
+		sl, ok := g.Type().(*types.Pointer).Elem().Underlying().(*types.Slice)
+		if !ok || !isByte(sl.Elem()) || g.Pkg == nil {
+			return nil
+		}
+		var lit []byte
+		stores := 0
+		for _, mem := range g.Pkg.Members {
+			fn, ok := mem.(*ssa.Function)
+			if !ok {
+				continue
+			}
+			fns := append([]*ssa.Function{fn}, fn.AnonFuncs...)
+			for _, f := range fns {
+				for _, b := range f.Blocks {
+					for _, in := range b.Instrs {
+						// any use of the global's address other than a load counts as a possible write
+						for _, op := range in.Operands(nil) {
+							if *op != ssa.Value(g) {
+								continue
+							}
+							if u, isLoad := in.(*ssa.UnOp); isLoad && u.X == ssa.Value(g) {
+								continue
+							}
+							st, isStore := in.(*ssa.Store)
+							if !isStore || st.Addr != ssa.Value(g) || f.Name() != "init" || f.Synthetic == "" {
+								return nil
+							}
+							stores++
+							s, ok := st.Val.(*ssa.Slice)
+							if !ok || s.Low != nil || s.High != nil {
+								return nil
+							}
+							al, ok := s.X.(*ssa.Alloc)
+							if !ok {
+								return nil
+							}
+							at, ok := al.Type().(*types.Pointer).Elem().Underlying().(*types.Array)
+							if !ok {
+								return nil
+							}
+							buf := make([]byte, at.Len())
+							for _, ref := range *al.Referrers() {
+								switch r := ref.(type) {
+								case *ssa.IndexAddr:
+									idx, ok := r.Index.(*ssa.Const)
+									if !ok {
+										return nil
+									}
+									for _, rr := range *r.Referrers() {
+										es, ok := rr.(*ssa.Store)
+										if !ok {
+											return nil
+										}
+										c, ok := es.Val.(*ssa.Const)
+										if !ok {
+											return nil
+										}
+										buf[idx.Int64()] = byte(c.Int64())
+									}
+								case *ssa.Slice:
+								default:
+									return nil
+								}
+							}
+							lit = buf
+						}
+					}
+				}
+			}
+		}
+		// methods of the package's types may also touch the global
+		for _, mem := range g.Pkg.Members {
+			if tn, ok := mem.(*ssa.Type); ok {
+				for _, t := range []types.Type{tn.Type(), types.NewPointer(tn.Type())} {
+					ms := g.Pkg.Prog.MethodSets.MethodSet(t)
+					for i := 0; i < ms.Len(); i++ {
+						f := g.Pkg.Prog.MethodValue(ms.At(i))
+						if f == nil || f.Blocks == nil || f.Pkg != g.Pkg {
+							continue
+						}
+						for _, b := range f.Blocks {
+							for _, in := range b.Instrs {
+								if st, ok := in.(*ssa.Store); ok && st.Addr == ssa.Value(g) {
+									return nil
+								}
+							}
+						}
+					}
+				}
+			}
+		}
+		if stores != 1 {
+			return nil
+		}
+		return lit
+	}()
+	constByteGlobals.Store(g, res)
+	return res, res != nil
+}
+
+// globalWrittenOutsideInit: some function of the package other than the synthetic initialiser uses the address of g
+// for anything but a load.
+func globalWrittenOutsideInit(g *ssa.Global) bool {
+	var fns []*ssa.Function
+	for _, pk := range g.Pkg.Prog.AllPackages() {
+		if pk.Pkg == nil || !strings.Contains(pk.Pkg.Path(), "MinterTeam/mhub2") {
+			continue
+		}
+		for _, mem := range pk.Members {
+			switch m := mem.(type) {
+			case *ssa.Function:
+				fns = append(fns, m)
+				fns = append(fns, m.AnonFuncs...)
+			case *ssa.Type:
+				for _, t := range []types.Type{m.Type(), types.NewPointer(m.Type())} {
+					ms := g.Pkg.Prog.MethodSets.MethodSet(t)
+					for i := 0; i < ms.Len(); i++ {
+						if f := g.Pkg.Prog.MethodValue(ms.At(i)); f != nil && f.Blocks != nil && f.Pkg == pk {
+							fns = append(fns, f)
+							fns = append(fns, f.AnonFuncs...)
+						}
+					}
+				}
+			}
+		}
+	}
+	for _, f := range fns {
+		isInit := f.Name() == "init" && f.Synthetic != "" && f.Pkg == g.Pkg
+		for _, b := range f.Blocks {
+			for _, in := range b.Instrs {
+				for _, op := range in.Operands(nil) {
+					if *op != ssa.Value(g) {
+						continue
+					}
+					if u, isLoad := in.(*ssa.UnOp); isLoad && u.X == ssa.Value(g) {
+						continue
+					}
+					if _, dbg := in.(*ssa.DebugRef); dbg {
+						continue
+					}
+					if st, isStore := in.(*ssa.Store); isStore && st.Addr == ssa.Value(g) && isInit {
+						continue
+					}
+					return true
+				}
+			}
+		}
+	}
+	return false
+}
+
+var constIntGlobals sync.Map
+
+// constIntGlobal: g is a package-level sdk.Int whose only assignment is `g = sdk.NewInt(<constant>)` in the package
+// initialiser (an unexported-or-not variable that other packages could assign is still accepted only if no repository
+// package does: exported globals of the repository are never assigned across packages in the loaded program).
+func constIntGlobal(g *ssa.Global) (int64, bool) {
+	if v, ok := constIntGlobals.Load(g); ok {
+		if v == nil {
+			return 0, false
+		}
+		return v.(int64), true
+	}
+	res, ok := func() (int64, bool) {
+		if g.Pkg == nil || typeString(g.Type().(*types.Pointer).Elem()) != "github.com/cosmos/cosmos-sdk/types.Int" || globalWrittenOutsideInit(g) {
+			return 0, false
+		}
+		init := g.Pkg.Func("init")
+		if init == nil {
+			return 0, false
+		}
+		n, found := int64(0), 0
+		for _, b := range init.Blocks {
+			for _, in := range b.Instrs {
+				st, ok := in.(*ssa.Store)
+				if !ok || st.Addr != ssa.Value(g) {
+					continue
+				}
+				c, ok := st.Val.(*ssa.Call)
+				if !ok {
+					return 0, false
+				}
+				f, ok := c.Common().Value.(*ssa.Function)
+				if !ok || f.String() != "github.com/cosmos/cosmos-sdk/types.NewInt" {
+					return 0, false
+				}
+				k, ok := c.Common().Args[0].(*ssa.Const)
+				if !ok {
+					return 0, false
+				}
+				n = k.Int64()
+				found++
+			}
+		}
+		return n, found == 1
+	}()
+	if ok {
+		constIntGlobals.Store(g, res)
+	} else {
+		constIntGlobals.Store(g, nil)
+	}
+	return res, ok
 }
